@@ -38,14 +38,19 @@ EstimateSizeAsOriginallyCoded(sizes, authMax) == MaxBaseSize + 1 + SumSeq(sizes)
 AuthKinds == {"ed25519", "secp256r1", "bls"}
 AuthLen(k) == CASE k = "ed25519" -> 1 + 32 + 64 [] k = "secp256r1" -> 1 + 33 + 64 [] k = "bls" -> 1 + 48 + 96
 
-(* ---- storage and compute.  An action is [size, keys (sequence of [name, chunks]), compute];
+(* ---- storage and compute.  An action is [size, keys (sequence of [name, chunks, perm]), compute]; a key is identified
+   by (name, chunks) - the chunk suffix is part of the key bytes - and perm is the raw state.Permissions byte it was
+   declared with (read 1, allocate 2, write 4).  Transaction.Units charges EVERY declared key the key and value units
+   of all three storage dimensions whatever its permission (the same rule as Block.tla's Units, which binds the units
+   charged by execution), so the permission must not lower the estimate either: neither side of the model reads perm.
+   The name "$sponsor-balance" stands for the sponsor's own balance key, which an action may declare as well.
    cost = <<key cost, value cost per chunk>> of one storage dimension *)
 KeyCost(k, cost)      == cost[1] + k.chunks * cost[2]
 RECURSIVE SumKeys(_, _)
 SumKeys(ks, cost)     == IF ks = <<>> THEN 0 ELSE KeyCost(Head(ks), cost) + SumKeys(Tail(ks), cost)
 RECURSIVE SumSet(_, _)
 SumSet(S, cost)       == IF S = {} THEN 0 ELSE LET k == CHOOSE x \in S : TRUE IN KeyCost(k, cost) + SumSet(S \ {k}, cost)
-KeySetOf(ks)          == {ks[i] : i \in DOMAIN ks}
+KeySetOf(ks)          == {[name |-> ks[i].name, chunks |-> ks[i].chunks] : i \in DOMAIN ks}
 AllKeys(actions)      == UNION {KeySetOf(actions[i].keys) : i \in DOMAIN actions}
 SponsorKey(balChunks) == [name |-> "$sponsor-balance", chunks |-> balChunks]
 (* estimate: every action's keys (duplicates across actions counted again) + the rules' sponsor key chunk list *)
